@@ -157,6 +157,9 @@ class Request(HTTPConnection):
                 )
             except json.JSONDecodeError as exc:
                 raise MalformedJSON(str(exc)) from None
+            except (ValueError, LookupError, RecursionError) as exc:
+                # undecodable bytes, unknown charset, absurd numbers or nesting
+                raise MalformedJSON(str(exc)) from None
 
         raise UnsupportedMediaType("application/json")
 
